@@ -22,7 +22,7 @@ WITNESS_DIR = os.path.join(VERIF, "witness")
 
 WITNESS_TUS = ["w_core.cpp", "w_values.cpp", "w_lexer.cpp", "w_limits.cpp", "w_constexpr.cpp"]
 # type-level witnesses: allowed not to compile (the failure is then reported by the property that owns the witness)
-OPTIONAL_TUS = ["w_moveonly.cpp"]   # w_cexeval.cpp: compile-fail witness (C07)
+OPTIONAL_TUS = ["w_moveonly.cpp", "w_ctxflag.cpp"]   # w_cexeval.cpp: compile-fail witness (C07)
 
 
 class AnalysisIncomplete(Exception):
